@@ -261,9 +261,9 @@ def inputs_json(p, **kw):
 def tiers(tier):
     if tier == "quick":
         return dict(nprob=30, npass=40, nfista=24, nas=56, nadmm=10, aswarm=80, ncold=12, nfista2=10, nseq=8, ncall=8, nadmmloop=16, nadmmpred=12, nadmmnn=6, nasfb=8)
-    # round 8: thinned by about a quarter (12.1 -> ~9 CPU-minutes at VERIF_NPROC=4); the whole-function admm cases (37 s CPU per shard of 30) and
+    # round 8: thinned by about a quarter (12.1 -> ~9 CPU-minutes at VERIF_NPROC=4, measured under load 90); the whole-function admm cases (37 s CPU per shard of 30) and
     # the FISTA iteration cases (17 s per shard) are the expensive ones
-    return dict(nprob=180, npass=300, nfista=110, nas=500, nadmm=50, aswarm=1100, ncold=80, nfista2=80, nseq=60, ncall=48, nadmmloop=60, nadmmpred=80, nadmmnn=32, nasfb=60)
+    return dict(nprob=160, npass=280, nfista=96, nas=480, nadmm=50, aswarm=1000, ncold=80, nfista2=72, nseq=56, ncall=48, nadmmloop=48, nadmmpred=80, nadmmnn=32, nasfb=60)
 
 
 def dyadic_start(rng, r, n, kind):
@@ -295,6 +295,21 @@ def load_corpus():
 
 class Skip(Exception):
     pass
+
+
+def list_vs_kronecker(fista, UtM2, A, Bm, x0, K, fkw2):
+    """transcription of C13_fista_list_is_fista_on_kronecker on the implementation: K iterations (tol = 0, so that no stopping decision can
+    differ by rounding) of fista with UtU = [A, B] against fista with UtU = numpy.kron(A, B) on the row-major flattened data; None = agree"""
+    Va = fista(UtM2.copy(), [A.copy(), Bm.copy()], x=None if x0 is None else x0.copy(), n_iter_max=K, tol=0, **fkw2)
+    Vb = fista(UtM2.reshape(-1, 1).copy(), np.kron(A, Bm), x=None if x0 is None else x0.reshape(-1, 1).copy(), n_iter_max=K, tol=0, **fkw2)
+    Va, Vb = np.asarray(Va, dtype=float), np.asarray(Vb, dtype=float)
+    if not (finite(Va) and finite(Vb)):
+        return "non-finite result"
+    if Va.shape != UtM2.shape or Vb.shape != (UtM2.size, 1):
+        return f"shapes {Va.shape} / {Vb.shape}"
+    err = float(np.max(np.abs(Va.reshape(-1, 1) - Vb)))
+    bound = 1e-9 * (1 + float(np.max(np.abs(Vb))))
+    return None if err <= bound else f"fista with UtU = [A, B] and fista with UtU = kron(A, B) on the flattened data differ by {err:.3g} after {K} iterations (tol = 0)"
 
 
 def impl_call(chk, fn, *a, timeout=120, **k):
@@ -741,7 +756,7 @@ def run(chk):
         eps = rng.choice([0.0, 1e-8, 0.25]); tol = rng.choice([0.0, 0.0, 0.5, 0.125])
         x0 = None if rng.random() < 0.4 else dyadic_start(rng, r1, r2, rng.choice(["dense", "sparse", "infeasible"]))
         fkw2 = dict(non_negative=nonneg, sparsity_coef=l1, ridge_coef=l2, lr=lr, epsilon=eps)
-        inp2 = {"UtM": UtM2, "UtU": [A, Bm], "l1": l1, "l2": l2, "x0": x0, "lr": lr, "epsilon": eps, "n_iter_max": K, "list_UtU": True}
+        inp2 = {"UtM": UtM2, "UtU": [A, Bm], "l1": l1, "l2": l2, "x0": x0, "lr": lr, "epsilon": eps, "n_iter_max": K, "list_UtU": True, "non_negative": nonneg}
         try:
             st, V = impl_call(chk, lambda: fista(UtM2.copy(), [A.copy(), Bm.copy()], x=None if x0 is None else x0.copy(), n_iter_max=K, tol=tol, **fkw2))
         except Skip:
@@ -758,6 +773,16 @@ def run(chk):
         chk.hist("solver", "fista/list-UtU")
         if nonneg and float(np.min(V)) < eps:
             chk.finding(EP_FISTA, inp2, f"iterate below epsilon: {float(np.min(V))}", "C13_fista_iterates_ge_eps", observed=V)
+        # predicate (theorem C13_fista_list_is_fista_on_kronecker, round 8): the list branch is the matrix branch on the Kronecker matrix
+        try:
+            stk, msgk = impl_call(chk, list_vs_kronecker, fista, UtM2, A, Bm, x0, K, fkw2)
+        except Skip:
+            continue
+        chk.hist("fista_list_vs_kronecker", "compared")
+        if stk != "ok":
+            chk.finding(EP_FISTA, dict(inp2, kronecker_identity=True), f"fista failed on the list / Kronecker pair: {msgk}", "C13_fista_list_is_fista_on_kronecker")
+        elif msgk:
+            chk.finding(EP_FISTA, dict(inp2, kronecker_identity=True), msgk, "C13_fista_list_is_fista_on_kronecker", observed=V)
         # run to convergence (restarted, tol = 0) and test KKT / objective of the Kronecker problem against the constructed optimum
         if symmetric:
             def conv2():
@@ -999,6 +1024,14 @@ def replay(payload):
                                           ridge_coef=inp.get("ridge_coef"), lr=inp.get("lr"), tol=0, epsilon=float(inp.get("epsilon", 0.0))))
         bad = st != "ok" or not finite(V) or (bool(inp.get("non_negative", True)) and float(np.min(V)) < float(inp.get("epsilon", 0.0)))
         print("replay: fista entry call ->", f"fails ({V})" if st != "ok" else ("fails" if bad else "holds"))
+        return 1 if bad else 0
+    if inp.get("list_UtU") and inp.get("kronecker_identity"):
+        A, Bm = [arr(v) for v in inp["UtU"]]
+        fkw2 = dict(non_negative=bool(inp.get("non_negative", True)), sparsity_coef=float(inp.get("l1", 0.0)), ridge_coef=float(inp.get("l2", 0.0)),
+                    lr=float(inp["lr"]), epsilon=float(inp.get("epsilon", 0.0)))
+        st, msg = C.call_impl(list_vs_kronecker, fista, arr(inp["UtM"]), A, Bm, arr(inp.get("x0")), int(inp.get("n_iter_max", 1)), fkw2, timeout=120)
+        bad = st != "ok" or msg is not None
+        print("replay: fista(list UtU) vs fista(kron) ->", (msg if st == "ok" else f"failed {msg}") if bad else "holds")
         return 1 if bad else 0
     if inp.get("list_UtU"):
         A, Bm = [arr(v) for v in inp["UtU"]]
